@@ -494,7 +494,8 @@ func (k *checker) compareGrow(mode string, prog []*cbref.Op, m *cbref.Result, r 
 		if len(r.out) > 0 {
 			s = cryptobyte.String(r.out[:len(r.out)-1])
 			if p, v := protect(func() { msg = readItems(&s, m.Items, mode != "zero") }); p {
-				return bad("mirrored String reads on the output cut by one byte panic: " + fmt.Sprint(v))
+				_ = v // the panic text carries indices; the replay reproduces it
+				return bad("mirrored String reads on the output cut by one byte panic")
 			}
 			if msg == "" {
 				return bad("mirrored String reads succeed on the output cut by one byte")
